@@ -44,7 +44,7 @@ CLAIMED = {
         technique="engine invariant (completed and failed disjoint, put requires all predecessors completed), failure-lock invariant G5, concrete identity checks of NodeError / CallError objects on every path",
         text="Proved: the failure path never adds to 'completed' and never enqueues successors; first_node_error is written only when unset, names the thread's own node and carries the very exception; "
              "no exception escapes process_node (BaseException included); the coordinator raises exactly that object after the pool is drained; run turns NodeError e into CallError(e.node) from e.__cause__ - whatever the call raised (ordinary, falsy, already chained, itself the CallError of a nested run, a NodeError); create_chained_call_error always builds a new CallError for the given node.",
-        note="'first failure with one worker' follows from G5 with worker_count = 1 (not a separate obligation). A registered Literal whose modified-time query fails yields AttributeError instead of CallError: known finding F4 (reported under C19).",
+        note="'first failure with one worker' follows from G5 with worker_count = 1 (not a separate obligation). A registered Literal whose modified-time query fails yields AttributeError instead of CallError: known finding F4 (reported under C19). F6 (exceptions whose attributes cannot be assigned, e.g. frozen dataclasses, lost as the cause) was found in round 7 and fixed in /repo (925fe03). User values, stores, exceptions and callables are represented by awkward stand-ins (falsy, unhashable, equal-but-distinct) so that truthiness / equality slips on them fail identity obligations.",
     ),
     "C07": dict(
         technique="contracts on the Kahn loop of topological_sort / assert_acyclic (ghost rank: returns => acyclic, raises => a cycle exists; L-RANK, L-CYCLE in Lean), process_items (task_done exactly once per get), worker_pool (all started threads joined on every exit), coordinator (DONE count, cleanup on exceptional join), process_node (nothing escapes), run composition (every real run reaches run_physical / the stale check with their contracts' parameters)",
